@@ -229,6 +229,12 @@ func main() {
 		cmdRtOne(os.Args[2:])
 	case "rt-check":
 		cmdRtCheck(os.Args[2:])
+	case "chk-trees":
+		cmdChkTrees(os.Args[2:])
+	case "chk-check":
+		cmdChkCheck(os.Args[2:])
+	case "c17-check":
+		cmdC17Check(os.Args[2:])
 	case "conc":
 		cmdConc(os.Args[2:])
 	case "store-replay":
